@@ -330,6 +330,31 @@ pub fn run(op: &str, case: &Value) -> Result<Value> {
             let bytes = unhex(case["hex"].as_str().ok_or_else(|| anyhow!("hex"))?)?;
             wire(ty, &bytes)?
         }
+        "artifact" => artifact_op(case)?,
+        "annotations" => annotations_op(case)?,
+        "artifact_manifest" => {
+            use ommx::ocipkg::image::{OciArchiveBuilder, OciArtifactBuilder};
+            use ommx::ocipkg::oci_spec::image::MediaType;
+            let dir = std::env::temp_dir().join(format!("ommx-replay-man-{}", std::process::id()));
+            let _ = std::fs::remove_dir_all(&dir);
+            std::fs::create_dir_all(&dir)?;
+            let path = dir.join("m.ommx");
+            let r = (|| -> Result<Value> {
+                let t = case["artifact_type"].as_str().unwrap_or("").to_string();
+                let b = OciArtifactBuilder::new(OciArchiveBuilder::new_unnamed(path.clone())?, MediaType::Other(t))?;
+                let _ = b.build()?;
+                let mut a = ommx::artifact::Artifact::from_oci_archive(&path)?;
+                Ok(match a.get_manifest() {
+                    Ok(_) => json!({"ok": true}),
+                    Err(e) => json!({"err": format!("{e}")}),
+                })
+            })();
+            let _ = std::fs::remove_dir_all(&dir);
+            match r {
+                Ok(v) => v,
+                Err(e) => json!({"build_err": format!("{e:#}")}),
+            }
+        }
         "enum_table" => {
             let mut out = serde_json::Map::new();
             macro_rules! tab {
@@ -408,4 +433,115 @@ fn wire(ty: &str, b: &[u8]) -> Result<Value> {
 #[allow(dead_code)]
 fn unused() -> anyhow::Error {
     anyhow!("x")
+}
+
+// ----------------------------------------------------------------------------- artifacts (C20)
+
+fn ann_map(v: &Value) -> std::collections::HashMap<String, String> {
+    v.as_object()
+        .map(|o| o.iter().map(|(k, x)| (k.clone(), x.as_str().unwrap_or("").to_string())).collect())
+        .unwrap_or_default()
+}
+
+fn ann_json(m: &std::collections::HashMap<String, String>) -> Value {
+    let mut o = serde_json::Map::new();
+    for (k, v) in m {
+        o.insert(k.clone(), json!(v));
+    }
+    Value::Object(o)
+}
+
+/// builds a local OCI archive with the listed layers, reopens it from the file and queries it
+fn artifact_op(case: &Value) -> Result<Value> {
+    use ommx::artifact::*;
+    use ommx::ocipkg::Digest;
+    let dir = std::env::temp_dir().join(format!("ommx-replay-art-{}-{}", std::process::id(), case["nonce"].as_u64().unwrap_or(0)));
+    let _ = std::fs::remove_dir_all(&dir);
+    std::fs::create_dir_all(&dir)?;
+    let path = dir.join("a.ommx");
+    let r = (|| -> Result<Value> {
+        let mut b = Builder::new_archive_unnamed(path.clone())?;
+        for l in case["layers"].as_array().ok_or_else(|| anyhow!("layers"))? {
+            let ann = ann_map(&l["annotations"]);
+            match l["kind"].as_str().unwrap_or("") {
+                "instance" => b.add_instance(msg(&l["hex"])?, InstanceAnnotations::from(ann))?,
+                "solution" => b.add_solution(msg(&l["hex"])?, SolutionAnnotations::from(ann))?,
+                "parametric_instance" => b.add_parametric_instance(msg(&l["hex"])?, ParametricInstanceAnnotations::from(ann))?,
+                "sample_set" => b.add_sample_set(msg(&l["hex"])?, SampleSetAnnotations::from(ann))?,
+                k => bail!("kind {k}"),
+            }
+        }
+        let _built = b.build()?;
+        let mut a = Artifact::from_oci_archive(&path)?;
+        let manifest = a.get_manifest()?;
+        let descs: Vec<_> = manifest.layers().iter().map(|d| json!({"digest": d.digest(), "media_type": d.media_type().to_string()})).collect();
+        let mut digests: Vec<String> = manifest.layers().iter().map(|d| d.digest().to_string()).collect();
+        digests.push("sha256:0000000000000000000000000000000000000000000000000000000000000000".to_string());
+        let mut gets = vec![];
+        for d in &digests {
+            let dg = Digest::new(d)?;
+            let mut row = serde_json::Map::new();
+            row.insert("instance".into(), match a.get_instance(&dg) { Ok((m, an)) => json!({"ok": {"hex": enc(&m), "annotations": ann_json(&an)}}), Err(e) => json!({"err": format!("{e}")}) });
+            row.insert("solution".into(), match a.get_solution(&dg) { Ok((m, an)) => json!({"ok": {"hex": enc(&m), "annotations": ann_json(&an)}}), Err(e) => json!({"err": format!("{e}")}) });
+            row.insert("parametric_instance".into(), match a.get_parametric_instance(&dg) { Ok((m, an)) => json!({"ok": {"hex": enc(&m), "annotations": ann_json(&an)}}), Err(e) => json!({"err": format!("{e}")}) });
+            row.insert("sample_set".into(), match a.get_sample_set(&dg) { Ok((m, an)) => json!({"ok": {"hex": enc(&m), "annotations": ann_json(&an)}}), Err(e) => json!({"err": format!("{e}")}) });
+            gets.push(Value::Object(row));
+        }
+        let instances: Vec<_> = a.get_instances()?.iter().map(|(d, m)| json!({"digest": d.digest(), "hex": enc(m)})).collect();
+        let solutions: Vec<_> = a.get_solutions()?.iter().map(|(d, m)| json!({"digest": d.digest(), "hex": enc(m)})).collect();
+        let by_type = |a: &mut Artifact<ommx::ocipkg::image::OciArchive>, mt| -> Result<Vec<String>> {
+            Ok(a.get_layer_descriptors(&mt)?.iter().map(|d| d.digest().to_string()).collect())
+        };
+        let lists = json!({
+            "instance": by_type(&mut a, media_types::v1_instance())?,
+            "solution": by_type(&mut a, media_types::v1_solution())?,
+            "parametric_instance": by_type(&mut a, media_types::v1_parametric_instance())?,
+            "sample_set": by_type(&mut a, media_types::v1_sample_set())?,
+        });
+        Ok(json!({"ok": {"layers": descs, "get": gets, "instances": instances, "solutions": solutions, "descriptors": lists}}))
+    })();
+    let _ = std::fs::remove_dir_all(&dir);
+    Ok(match r {
+        Ok(v) => v,
+        Err(e) => json!({"err": format!("{e:#}")}),
+    })
+}
+
+/// applies setters of one annotation type and reads every getter back
+fn annotations_op(case: &Value) -> Result<Value> {
+    use ommx::artifact::*;
+    let ty = case["type"].as_str().unwrap_or("");
+    let sets = case["set"].as_array().cloned().unwrap_or_default();
+    macro_rules! common {
+        ($t:ty) => {{
+            let mut a = <$t>::default();
+            for s in &sets {
+                let v = &s[1];
+                match s[0].as_str().unwrap_or("") {
+                    "title" => a.set_title(v.as_str().unwrap_or("").to_string()),
+                    "authors" => a.set_authors(v.as_array().map(|x| x.iter().map(|y| y.as_str().unwrap_or("").to_string()).collect()).unwrap_or_default()),
+                    "license" => a.set_license(v.as_str().unwrap_or("").to_string()),
+                    "dataset" => a.set_dataset(v.as_str().unwrap_or("").to_string()),
+                    "variables" => a.set_variables(v.as_u64().unwrap_or(0) as usize),
+                    "constraints" => a.set_constraints(v.as_u64().unwrap_or(0) as usize),
+                    "created" => a.set_created(chrono::DateTime::parse_from_rfc3339(v.as_str().unwrap_or(""))?.with_timezone(&chrono::Local)),
+                    "other" => a.set_other(v[0].as_str().unwrap_or("").to_string(), v[1].as_str().unwrap_or("").to_string()),
+                    k => bail!("setter {k}"),
+                }
+            }
+            let opt = |r: Result<&String>| r.ok().cloned();
+            json!({"ok": {
+                "title": opt(a.title()), "license": opt(a.license()), "dataset": opt(a.dataset()),
+                "authors": a.authors().ok().map(|it| it.map(|x| x.to_string()).collect::<Vec<_>>()),
+                "variables": a.variables().ok(), "constraints": a.constraints().ok(),
+                "created": a.created().ok().map(|d| d.timestamp_nanos_opt()),
+                "map": ann_json(&a.clone().into_inner()),
+            }})
+        }};
+    }
+    Ok(match ty {
+        "instance" => common!(InstanceAnnotations),
+        "parametric_instance" => common!(ParametricInstanceAnnotations),
+        _ => bail!("annotation type {ty}"),
+    })
 }
